@@ -21,7 +21,7 @@ from checks import common
 PROPERTY = "C10"
 LEVEL = "exploration"
 MODES = ["O0"]
-TIERS = {"quick": {"runs": 2500, "wall": 55}, "thorough": {"runs": 40000, "wall": 1500}}
+TIERS = {"quick": {"runs": 5000, "wall": 55}, "thorough": {"runs": 40000, "wall": 1500}}
 RULE = ("plan = seeded store (1..7 PELs of all classes, id magnitudes small/mid/typical/max, shared PLIDs, "
         "reference codes from a pool with common prefixes) + history of 4..12 operations (look-ups --plid/--bmc-id/"
         "-i/--src/--src-exclude in every id spelling, hits, one-nibble near misses and absent ids; mutations -d, -D, "
